@@ -144,7 +144,7 @@ impl tx3_tir::compile::Compiler for Compiler {
                 Ok(tir::Expression::Number(ops::slot_to_time(
                     slot,
                     &self.cursor,
-                )))
+                )?))
             }
             tir::CompilerOp::ComputeTimeToSlot(x) => {
                 let time = coercion::expr_into_number(&x)?;
@@ -159,7 +159,7 @@ impl tx3_tir::compile::Compiler for Compiler {
                 Ok(tir::Expression::Number(ops::time_to_slot(
                     time,
                     &self.cursor,
-                )))
+                )?))
             }
         }
     }
